@@ -111,7 +111,7 @@ int main (int argc, char **argv)
 	for (i = 0x2000 ; i <= 0x2200 ; i++) ids [nids++] = i ;
 	for (i = 0x6000 ; i <= 0x6010 ; i++) ids [nids++] = i ;
 	ids [nids++] = 0 ; ids [nids++] = 1 ; ids [nids++] = -1 ; ids [nids++] = 0x7fffffff ; ids [nids++] = 0x10000 ; ids [nids++] = 0x1003 | 0x10000 ;
-	nf = vh_thorough ? 12 : 4 ;
+	nf = vh_thorough ? 12 : 8 ;
 	for (f = 0 ; f < nf ; f++)
 	{	int format = fmts [f][0], ch = fmts [f][1] ; MEMF base ;
 		SNDFILE *w ; memset (&base, 0, sizeof (base)) ;
